@@ -36,6 +36,7 @@ type Engine struct {
 	noWF        bool
 	pureIfaceMethods map[string]bool
 	guarded     map[string]string // heap name -> mutex heap path (see locks.go)
+	bitsUsed    map[[2]int]bool
 	repo        string
 }
 
@@ -165,6 +166,35 @@ func (e *Engine) isByte(t types.Type) bool {
 }
 
 func (e *Engine) bvCert(rule string) { e.bvCerts[rule] = true }
+
+// bitsTerm is the uninterpreted bit field (x div 2^lo) mod 2^(hi-lo).
+func (e *Engine) bitsTerm(x string, lo, hi int) string {
+	if e.bitsUsed == nil {
+		e.bitsUsed = map[[2]int]bool{}
+	}
+	e.bitsUsed[[2]int{lo, hi}] = true
+	return app(fmt.Sprintf("BITS_%d_%d", lo, hi), x)
+}
+
+// bitsDecls: declarations and range axioms (and exact definitions if asked).
+func (e *Engine) bitsDecls(exact bool) string {
+	var keys [][2]int
+	for k := range e.bitsUsed {
+		keys = append(keys, k)
+	}
+	sort.Slice(keys, func(i, j int) bool { return keys[i][0] < keys[j][0] || (keys[i][0] == keys[j][0] && keys[i][1] < keys[j][1]) })
+	var b strings.Builder
+	for _, k := range keys {
+		f := fmt.Sprintf("BITS_%d_%d", k[0], k[1])
+		w := bigLit(pow2[k[1]-k[0]])
+		b.WriteString(fmt.Sprintf("(declare-fun %s (Int) Int)\n", f))
+		b.WriteString(fmt.Sprintf("(assert (forall ((x Int)) (! (and (<= 0 (%s x)) (< (%s x) %s)) :pattern ((%s x)))))\n", f, f, w, f))
+		if exact {
+			b.WriteString(fmt.Sprintf("(assert (forall ((x Int)) (! (= (%s x) (mod (div x %s) %s)) :pattern ((%s x)))))\n", f, bigLit(pow2[k[0]]), w, f))
+		}
+	}
+	return b.String()
+}
 
 func (e *Engine) ifaceMethod(key string) *types.Func {
 	i := strings.Index(key, ".")
